@@ -60,6 +60,8 @@ type Thread struct {
 	state   uint8 // 0 parked at op, 1 running, 2 finished
 	granted bool  // cond signalled / rlock pre-admitted
 	Lib     bool  // started by library code through Go()
+	nops    uint64 // operations performed so far (its position)
+	th      uint64 // hash of its own operation history
 }
 
 const (
@@ -78,10 +80,11 @@ const (
 	Horizon
 	Panicked
 	Failed // oracle failure raised through Fail()
+	Pruned // the explorer recognised an already explored state and stopped the execution
 )
 
 func (s Status) String() string {
-	return [...]string{"done", "deadlock", "horizon", "panic", "failed"}[s]
+	return [...]string{"done", "deadlock", "horizon", "panic", "failed", "pruned"}[s]
 }
 
 // Point is one recorded decision with more than one alternative.
@@ -121,6 +124,15 @@ type Sched struct {
 	enbuf  []*Thread
 	Log    []string
 	KeepLog bool
+	// Key is the happens-before fingerprint of the execution so far: the sum over all synchronisation
+	// objects of a hash of the sequence of (thread, position) operations performed on it, plus every
+	// thread's own history hash.  Two prefixes with the same fingerprint are Mazurkiewicz-equivalent
+	// (same per-object operation orders), hence reach the same state of a data-race-free program.
+	Key     uint64
+	chanH   map[uintptr]*uint64
+	// Visit, if set, is asked at every scheduling decision beyond the replayed prefix whether the state
+	// (fingerprint incl. running thread) was explored before; true ends the execution as Pruned.
+	Visit   func(s *Sched, key uint64) bool
 }
 
 var (
@@ -139,7 +151,7 @@ var ErrBusy = busyT{}
 // NewSched prepares an execution.
 func NewSched(prefix []int, horizon int) *Sched {
 	epochCtr++
-	return &Sched{prefix: prefix, Horizon: horizon, done: make(chan struct{}), epoch: epochCtr, closed: map[uintptr]bool{}}
+	return &Sched{prefix: prefix, Horizon: horizon, done: make(chan struct{}), epoch: epochCtr, closed: map[uintptr]bool{}, chanH: map[uintptr]*uint64{}}
 }
 
 // Spawn adds a harness thread (before Run, or from a running thread).
@@ -151,6 +163,9 @@ func (s *Sched) spawn(name string, f func(), lib bool) *Thread {
 	t := &Thread{ID: len(s.threads), Name: name, gate: make(chan struct{}, 1), exited: make(chan struct{}), Lib: lib}
 	t.op = op{kind: OpStart}
 	s.threads = append(s.threads, t)
+	if s.cur != nil && s.cur.state == stRunning {
+		s.hop(nil, 0x6000+uint64(t.ID))
+	}
 	go func() {
 		defer close(t.exited)
 		<-t.gate
@@ -250,6 +265,55 @@ func (s *Sched) threadExit(t *Thread) {
 	next.gate <- struct{}{}
 }
 
+func mix(a, b, c uint64) uint64 {
+	h := a*0x9E3779B97F4A7C15 ^ (b+0x7F4A7C15)*0xC2B2AE3D27D4EB4F ^ (c+0x165667B1)*0x165667B19E3779F9
+	h ^= h >> 29
+	h *= 0xBF58476D1CE4E5B9
+	h ^= h >> 32
+	return h
+}
+
+// hop records one operation of the running thread on the object whose history hash is *ph (nil: an
+// operation on no shared object); v is folded into the thread's own history (kind, chosen value…).
+func (s *Sched) hop(ph *uint64, v uint64) {
+	t := s.cur
+	if t == nil {
+		return
+	}
+	t.nops++
+	oldT := mix(uint64(t.ID)+1, t.th, 0x51)
+	t.th = mix(t.th, v, t.nops)
+	s.Key += mix(uint64(t.ID)+1, t.th, 0x51) - oldT
+	if ph != nil {
+		old := *ph
+		*ph = mix(old, uint64(t.ID)+1, t.nops)
+		s.Key += *ph - old
+	}
+}
+
+func (s *Sched) chanHash(c interface{}) *uint64 {
+	p, _, _, isNil := chanInfo(c)
+	if isNil {
+		return nil
+	}
+	h := s.chanH[p]
+	if h == nil {
+		h = new(uint64)
+		s.chanH[p] = h
+	}
+	return h
+}
+
+// Touch records an access of the running thread to a piece of shared state that is not protected by
+// any shim object (harness bookkeeping): the order of touches of one object is part of the fingerprint.
+func Touch(ph *uint64) {
+	s := active
+	if s == nil || s.aborting || s.inspect {
+		return
+	}
+	s.hop(ph, 0x77)
+}
+
 func (s *Sched) note(t *Thread) {
 	// trace hash: FNV-1a over (thread, kind)
 	h := s.Trace
@@ -261,6 +325,36 @@ func (s *Sched) note(t *Thread) {
 	s.Trace = h
 	if s.KeepLog {
 		s.Log = append(s.Log, fmt.Sprintf("T%d(%s) %s", t.ID, t.Name, t.op.kind))
+	}
+	o := &t.op
+	switch o.kind {
+	case OpLock:
+		s.hop(&o.obj.(*Mutex).hh, uint64(o.kind))
+	case OpRLock, OpWLock1, OpWLock2:
+		s.hop(&o.obj.(*RWMutex).hh, uint64(o.kind))
+	case OpCondWait:
+		s.hop(&o.obj.(*Cond).hh, uint64(o.kind))
+	case OpWGWait:
+		s.hop(&o.obj.(*WaitGroup).hh, uint64(o.kind))
+	case OpOnce:
+		s.hop(&o.obj.(*Once).hh, uint64(o.kind))
+	case OpRecv, OpSend:
+		s.hop(s.chanHash(o.obj), uint64(o.kind))
+	case OpSelect:
+		for i := range o.cases {
+			s.hop(s.chanHash(o.cases[i].Ch), uint64(o.kind))
+		}
+		if len(o.cases) == 0 {
+			s.hop(nil, uint64(o.kind))
+		}
+	case OpAtomic:
+		if ph, ok := o.obj.(*uint64); ok {
+			s.hop(ph, uint64(o.kind))
+		} else {
+			s.hop(nil, uint64(o.kind))
+		}
+	default:
+		s.hop(nil, uint64(o.kind))
 	}
 }
 
@@ -294,6 +388,16 @@ func (s *Sched) decide() *Thread {
 		if err != nil {
 			s.FailMsg = err.Error()
 			s.finish(Failed)
+			return nil
+		}
+	}
+	if s.Visit != nil && !s.finished && len(s.Points) >= len(s.prefix) {
+		k := s.Key
+		if s.cur != nil {
+			k ^= mix(uint64(s.cur.ID)+1, uint64(s.cur.state), 0x99)
+		}
+		if s.Visit(s, k) {
+			s.finish(Pruned)
 			return nil
 		}
 	}
@@ -536,6 +640,19 @@ func Choose(n int) int {
 	}
 	c := s.choice(n, true, false, false)
 	s.NoteValue(uint64(c) + 77)
+	s.hop(nil, uint64(c)+0x4000)
+	return c
+}
+
+// ChooseFree is a data choice that costs nothing (used to enumerate the letters of a driver program).
+func ChooseFree(n int) int {
+	s := here()
+	if s == nil || n <= 1 {
+		return 0
+	}
+	c := s.choice(n, true, false, true)
+	s.NoteValue(uint64(c) + 99)
+	s.hop(nil, uint64(c)+0x7000)
 	return c
 }
 
@@ -565,6 +682,9 @@ func Close(c interface{}) {
 			s.point(op{kind: OpRelease})
 		}
 		s.closed[v.Pointer()] = true
+		if !s.inspect {
+			s.hop(s.chanHash(c), 0x38)
+		}
 	}
 	v.Close()
 }
@@ -617,6 +737,7 @@ func Select(hasDefault bool, cases ...Case) int {
 	}
 	c := rd[s.choice(len(rd), true, false, true)]
 	s.NoteValue(uint64(c) + 1000)
+	s.hop(nil, uint64(c)+0x5000)
 	return c
 }
 
@@ -641,12 +762,14 @@ type Mutex struct {
 	held  bool
 	ep    uint32
 	Owner int
+	hh    uint64
 }
 
 func (m *Mutex) fresh(s *Sched) {
 	if m.ep != s.epoch {
 		m.ep = s.epoch
 		m.held = false
+		m.hh = 0
 	}
 }
 
@@ -715,6 +838,7 @@ func (m *Mutex) Unlock() {
 		s.point(op{kind: OpRelease})
 	}
 	m.held = false
+	s.hop(&m.hh, 0x31)
 }
 
 // Held reports whether m is held (inspection only).
@@ -733,12 +857,14 @@ type RWMutex struct {
 	writer  *Thread // pending or holding
 	wheld   bool
 	ep      uint32
+	hh      uint64
 }
 
 func (m *RWMutex) fresh(s *Sched) {
 	if m.ep != s.epoch {
 		m.ep = s.epoch
 		m.readers, m.writer, m.wheld = 0, nil, false
+		m.hh = 0
 	}
 }
 
@@ -789,6 +915,7 @@ func (m *RWMutex) RUnlock() {
 		s.point(op{kind: OpRelease})
 	}
 	m.readers--
+	s.hop(&m.hh, 0x32)
 }
 
 // Lock write-locks m.
@@ -838,6 +965,7 @@ func (m *RWMutex) Unlock() {
 	}
 	m.wheld = false
 	m.writer = nil
+	s.hop(&m.hh, 0x33)
 	// readers blocked behind this writer are admitted before any later writer (Go's RWMutex.Unlock)
 	for _, t := range s.threads {
 		if t.state == stParked && t.op.kind == OpRLock && t.op.obj == interface{}(m) && !t.granted {
@@ -870,6 +998,7 @@ type Cond struct {
 	rmu     sync.Mutex
 	waiters []*Thread
 	ep      uint32
+	hh      uint64
 }
 
 // NewCond mirrors sync.NewCond.
@@ -879,6 +1008,7 @@ func (c *Cond) fresh(s *Sched) {
 	if c.ep != s.epoch {
 		c.ep = s.epoch
 		c.waiters = nil
+		c.hh = 0
 	}
 }
 
@@ -908,6 +1038,7 @@ func (c *Cond) Wait() {
 	t := s.cur
 	t.granted = false
 	c.waiters = append(c.waiters, t)
+	s.hop(&c.hh, 0x34)
 	c.L.Unlock()
 	s.point(op{kind: OpCondWait, obj: c})
 	t.granted = false
@@ -925,6 +1056,7 @@ func (c *Cond) Signal() {
 		return
 	}
 	c.fresh(s)
+	s.hop(&c.hh, 0x35)
 	if len(c.waiters) > 0 {
 		c.waiters[0].granted = true
 		c.waiters = c.waiters[1:]
@@ -942,6 +1074,7 @@ func (c *Cond) Broadcast() {
 		return
 	}
 	c.fresh(s)
+	s.hop(&c.hh, 0x36)
 	for _, t := range c.waiters {
 		t.granted = true
 	}
@@ -961,12 +1094,14 @@ type WaitGroup struct {
 	real sync.WaitGroup
 	n    int
 	ep   uint32
+	hh   uint64
 }
 
 func (w *WaitGroup) fresh(s *Sched) {
 	if w.ep != s.epoch {
 		w.ep = s.epoch
 		w.n = 0
+		w.hh = 0
 	}
 }
 
@@ -982,6 +1117,9 @@ func (w *WaitGroup) Add(d int) {
 	}
 	w.fresh(s)
 	w.n += d
+	if !s.inspect {
+		s.hop(&w.hh, 0x37+uint64(int64(d)))
+	}
 	if w.n < 0 {
 		panic("sync: negative WaitGroup counter")
 	}
@@ -1013,6 +1151,7 @@ type Once struct {
 	done    bool
 	running bool
 	ep      uint32
+	hh      uint64
 }
 
 // Do mirrors sync.Once.Do.
@@ -1028,6 +1167,7 @@ func (o *Once) Do(f func()) {
 	if o.ep != s.epoch {
 		o.ep = s.epoch
 		o.done, o.running = false, false
+		o.hh = 0
 	}
 	if s.inspect {
 		panic("vsync: Once.Do during inspection")
@@ -1048,6 +1188,13 @@ func (o *Once) Do(f func()) {
 func AtomicPoint() {
 	if s := here(); s != nil {
 		s.point(op{kind: OpAtomic})
+	}
+}
+
+// AtomicPointOn is AtomicPoint for an atomic whose history hash lives in *ph.
+func AtomicPointOn(ph *uint64) {
+	if s := here(); s != nil {
+		s.point(op{kind: OpAtomic, obj: ph})
 	}
 }
 
